@@ -556,6 +556,10 @@ class Interp:
         rhs = self.eval(st.value, env, ctx)
         # in-place semantics: arrays / Quantities-of-arrays / lists mutate; scalars and Time rebind
         if self.stubs.inplace(cur, st.op, rhs, ctx):
+            if isinstance(t, ast.Attribute):
+                # obj.attr op= x  is  obj.attr = obj.attr.__iop__(x): the (same) object is assigned back, through a
+                # property setter when there is one
+                self.assign(t, cur, env, ctx)
             return
         self.assign(t, self.binop(st.op, cur, rhs, ctx), env, ctx)
 
@@ -957,6 +961,7 @@ class Interp:
             return v
         iota = ctx.fresh("iota", "int")
         ctx.assume(z3.And(iota >= 0, iota < V.Z(sq.n)), why="generic comprehension index")
+        ctx.fold_point(iota, sq.n)
         template = item(iota, first=True)
         return SSeq(sq.n, item, template, iota)
 
